@@ -11,8 +11,9 @@ from typing import Any
 
 VERIF = os.path.dirname(os.path.dirname(os.path.abspath(__file__)))
 REPO = os.environ.get("VERIF_REPO", "/repo")
-EVIDENCE_DIR = os.path.join(VERIF, "evidence")
-REPLAY_DIR = os.path.join(VERIF, "evidence", "replay")
+# (VERIF_EVIDENCE_DIR: somewhere else for runs that must not touch the registered evidence - seed regressions, load tests)
+EVIDENCE_DIR = os.environ.get("VERIF_EVIDENCE_DIR") or os.path.join(VERIF, "evidence")
+REPLAY_DIR = os.path.join(EVIDENCE_DIR, "replay")
 FINDINGS_FILE = os.path.join(VERIF, "known_findings.json")
 GUARD = "EASYNETWORK_VERIF"
 
